@@ -1,0 +1,358 @@
+/**
+ * @file verif_hooks.h
+ * Observation hooks for external verification tooling.
+ *
+ * Everything in here is compiled only with -DUNCRUSTIFY_VERIF and does
+ * nothing unless one of the UNC_VERIF_* environment variables is set.
+ * The hooks only read program state and write side files; they never
+ * change what uncrustify computes.
+ */
+#ifndef VERIF_HOOKS_H_INCLUDED
+#define VERIF_HOOKS_H_INCLUDED
+
+#ifdef UNCRUSTIFY_VERIF
+
+#include "chunk.h"
+#include "options.h"
+#include "uncrustify.h"
+#include "uncrustify_types.h"
+#include "unicode.h"
+
+#include <cstdio>
+#include <cstdlib>
+#include <string>
+#include <unordered_map>
+#include <vector>
+
+namespace verif
+{
+
+struct state_t
+{
+   bool                                      init       = false;
+   const char                                *prefix    = nullptr; // UNC_VERIF_DUMP
+   bool                                      codec_only = false;   // UNC_VERIF_CODEC
+   int                                       file_no    = -1;      // index of the current source file
+   std::unordered_map<const Chunk *, size_t> index;                // chunk -> position in the .fin dump
+   bool                                      rec = false;          // recording written code points
+   std::vector<int>                          rec_chars;
+   FILE                                      *out_file      = nullptr;
+   FILE                                      *sp_file       = nullptr;
+   const char                                *last_rule     = "";
+   size_t                                    last_rule_line = 0;
+   int                                       raw_av         = -1;
+   size_t                                    begin_idx      = 0;
+};
+
+
+inline state_t &st()
+{
+   static state_t s;
+
+   if (!s.init)
+   {
+      s.init = true;
+      const char *p = getenv("UNC_VERIF_DUMP");
+      s.prefix = (  p != nullptr
+                 && *p != 0) ? p : nullptr;
+      const char *c = getenv("UNC_VERIF_CODEC");
+      s.codec_only = (  c != nullptr
+                     && *c != 0);
+   }
+   return(s);
+}
+
+
+inline bool dumping()
+{
+   return(st().prefix != nullptr);
+}
+
+
+inline bool codec_only()
+{
+   return(st().codec_only);
+}
+
+
+inline FILE *open_dump(const char *ext)
+{
+   std::string name = std::string(st().prefix) + "." + std::to_string(st().file_no) + "." + ext;
+
+   return(fopen(name.c_str(), "wb"));
+}
+
+
+inline void put_text(FILE *f, const UncText &t)
+{
+   if (t.size() == 0)
+   {
+      fputc('-', f);
+      return;
+   }
+
+   for (size_t i = 0; i < t.size(); i++)
+   {
+      fprintf(f, "%s%x", (i == 0) ? "" : ",", (unsigned)t[i]);
+   }
+}
+
+
+inline void put_chunk(FILE *f, const Chunk *pc)
+{
+   fprintf(f, "C %s %s %zu %zu %zu %zu %zu %zu %zu %zu %zu %zu %zu %llx %d ",
+           get_token_name(pc->GetType()), get_token_name(pc->GetParentType()),
+           pc->GetOrigLine(), pc->GetOrigCol(), pc->GetOrigColEnd(), pc->GetOrigPrevSp(),
+           pc->GetColumn(), pc->GetColumnIndent(), pc->GetNlCount(), pc->GetNlColumn(),
+           pc->GetLevel(), pc->GetBraceLevel(), pc->GetPpLevel(),
+           (unsigned long long)~(~pc->GetFlags()), pc->GetAfterTab() ? 1 : 0);
+   put_text(f, pc->GetStr());
+   fputc('\n', f);
+}
+
+
+inline void put_header(FILE *f)
+{
+   fprintf(f, "H lang=%zx enc=%d bom=%d frag=%d le=%u,%u,%u nl=",
+           cpd.lang_flags, (int)cpd.enc, cpd.bom ? 1 : 0, cpd.frag ? 1 : 0,
+           (unsigned)cpd.le_counts[0], (unsigned)cpd.le_counts[1], (unsigned)cpd.le_counts[2]);
+   put_text(f, cpd.newline);
+   fprintf(f, " file=%s\n", cpd.filename.c_str());
+}
+
+
+//! called right after tokenize() in uncrustify_start(): the raw token list
+inline void dump_tok()
+{
+   if (!dumping())
+   {
+      return;
+   }
+   st().file_no++;
+   FILE *f = open_dump("tok");
+
+   if (f == nullptr)
+   {
+      return;
+   }
+   put_header(f);
+
+   for (Chunk *pc = Chunk::GetHead(); pc->IsNotNullChunk(); pc = pc->GetNext())
+   {
+      put_chunk(f, pc);
+   }
+
+   fclose(f);
+}
+
+
+//! called in output_text() once the columns are final: the list that is rendered
+inline void dump_fin()
+{
+   if (!dumping())
+   {
+      return;
+   }
+
+   if (st().file_no < 0)
+   {
+      st().file_no = 0;
+   }
+   st().index.clear();
+   FILE *f = open_dump("fin");
+
+   if (f != nullptr)
+   {
+      put_header(f);
+      using namespace uncrustify;
+      fprintf(f, "O indent_with_tabs=%d pp_indent_with_tabs=%d output_tab_size=%u input_tab_size=%u"
+              " align_with_tabs=%d align_keep_tabs=%d sp_before_nl_cont=%d force_tab_after_define=%d"
+              " cmt_convert_tab_to_spaces=%d indent_columns=%d bom=%d html=%d version=%d\n",
+              (int)options::indent_with_tabs(), (int)options::pp_indent_with_tabs(),
+              (unsigned)options::output_tab_size(), (unsigned)options::input_tab_size(),
+              options::align_with_tabs() ? 1 : 0, options::align_keep_tabs() ? 1 : 0,
+              (int)options::sp_before_nl_cont(), options::force_tab_after_define() ? 1 : 0,
+              options::cmt_convert_tab_to_spaces() ? 1 : 0, (int)options::indent_columns(),
+              cpd.bom ? 1 : 0, (cpd.html_type != tracking_type_e::TT_NONE) ? 1 : 0,
+              options::debug_print_version() ? 1 : 0);
+   }
+   size_t idx = 0;
+
+   for (Chunk *pc = Chunk::GetHead(); pc->IsNotNullChunk(); pc = pc->GetNext())
+   {
+      st().index[pc] = idx++;
+
+      if (f != nullptr)
+      {
+         put_chunk(f, pc);
+      }
+   }
+
+   if (f != nullptr)
+   {
+      fclose(f);
+   }
+   st().out_file = open_dump("out");
+   st().rec      = (st().out_file != nullptr);
+   st().rec_chars.clear();
+} // dump_fin
+
+
+inline void put_writer_state(FILE *f)
+{
+   fprintf(f, "%zu %u %d %d", cpd.column, (unsigned)cpd.spaces, cpd.last_char, cpd.did_newline ? 1 : 0);
+}
+
+
+//! top of the body of the chunk loop of output_text()
+inline void out_begin(const Chunk *pc)
+{
+   if (!st().rec)
+   {
+      return;
+   }
+   auto it = st().index.find(pc);
+   st().begin_idx = (it == st().index.end()) ? (size_t)-1 : it->second;
+   st().rec_chars.clear();
+   fprintf(st().out_file, "B %zu ", st().begin_idx);
+   put_writer_state(st().out_file);
+   fputc('\n', st().out_file);
+}
+
+
+//! bottom of the body of the chunk loop of output_text()
+inline void out_end(const Chunk *pc)
+{
+   if (!st().rec)
+   {
+      return;
+   }
+   auto   it      = st().index.find(pc);
+   size_t end_idx = (it == st().index.end()) ? (size_t)-1 : it->second;
+
+   fprintf(st().out_file, "E %zu %zu %zu ", st().begin_idx, end_idx, pc->GetColumn());
+   put_writer_state(st().out_file);
+   fputc(' ', st().out_file);
+
+   if (st().rec_chars.empty())
+   {
+      fputc('-', st().out_file);
+   }
+
+   for (size_t i = 0; i < st().rec_chars.size(); i++)
+   {
+      fprintf(st().out_file, "%s%x", (i == 0) ? "" : ",", (unsigned)st().rec_chars[i]);
+   }
+
+   fputc('\n', st().out_file);
+   st().rec_chars.clear();
+}
+
+
+//! end of output_text()
+inline void out_close()
+{
+   if (st().out_file != nullptr)
+   {
+      fclose(st().out_file);
+      st().out_file = nullptr;
+   }
+   st().rec = false;
+   st().index.clear();
+}
+
+
+//! every code point handed to write_char()
+inline void rec_char(int ch)
+{
+   if (st().rec)
+   {
+      st().rec_chars.push_back(ch);
+   }
+}
+
+
+//! log_rule2(): remember which rule do_space() reported last
+inline void note_rule(const char *rule, size_t line)
+{
+   st().last_rule      = rule;
+   st().last_rule_line = line;
+}
+
+
+inline void note_raw_av(int av)
+{
+   st().raw_av = av;
+}
+
+
+//! space_text(): one record per adjacent pair whose column was decided
+inline void sp_record(const Chunk *pc, const Chunk *next, int av, int min_sp, size_t prev_column, size_t column)
+{
+   if (!dumping())
+   {
+      return;
+   }
+
+   if (st().file_no < 0)
+   {
+      st().file_no = 0;
+   }
+
+   if (st().sp_file == nullptr)
+   {
+      st().sp_file = open_dump("sp");
+
+      if (st().sp_file == nullptr)
+      {
+         return;
+      }
+   }
+   FILE *f = st().sp_file;
+
+   fprintf(f, "S %zu %zu %zu %zu %zu %d %d %d %d %zu %zu %zu %zu %zu %zu %s %s %d ",
+           pc->GetOrigLine(), pc->GetOrigCol(), next->GetOrigLine(), next->GetOrigCol(),
+           st().last_rule_line, st().raw_av, av, min_sp,
+           pc->TestFlags(PCF_FORCE_SPACE) ? 1 : 0,
+           prev_column, column, pc->GetOrigColEnd(), pc->Len(), pc->GetNlCount(), next->GetOrigPrevSp(),
+           get_token_name(pc->GetType()), get_token_name(next->GetType()),
+           next->IsComment() ? 1 : 0);
+   put_text(f, pc->GetStr());
+   fputc(' ', f);
+   put_text(f, next->GetStr());
+   fprintf(f, "\t%s\n", st().last_rule);
+}
+
+
+//! end of space_text()
+inline void sp_close()
+{
+   if (st().sp_file != nullptr)
+   {
+      fclose(st().sp_file);
+      st().sp_file = nullptr;
+   }
+}
+
+
+//! UNC_VERIF_CODEC: decode, apply the BOM policy, re-encode; no formatting at all
+inline void codec_passthrough(const std::deque<int> &data, FILE *pfout)
+{
+   cpd.fout = pfout;
+
+   if (cpd.bom)
+   {
+      write_bom();
+   }
+
+   for (int ch : data)
+   {
+      write_char(ch);
+   }
+}
+
+} // namespace verif
+
+#endif /* UNCRUSTIFY_VERIF */
+
+#endif /* VERIF_HOOKS_H_INCLUDED */
